@@ -434,8 +434,25 @@ func checkC19(c *Ctx) error {
 				continue
 			}
 			site := sites[rng.IntN(len(sites))]
-			undo := gen.InsertAt(site, rng.IntN(site.Max+1), &gen.Raw{Text: sp[rng.IntN(len(sp))]})
-			addBase(fmt.Sprintf("gen:%d:%d:type-error:%d", c.Env.Seed, b, tries), "type-error", p.Source())
+			snippet := sp[rng.IntN(len(sp))]
+			undo := gen.InsertAt(site, rng.IntN(site.Max+1), &gen.Raw{Text: snippet})
+			// every second twin carries the same violation twice (two diagnostics with the same text at
+			// different places)
+			undo2 := func() {}
+			if tries == 1 {
+				site2 := sites[rng.IntN(len(sites))]
+				undo2 = gen.InsertAt(site2, rng.IntN(site2.Max+1), &gen.Raw{Text: snippet})
+			}
+			esrc := p.Source()
+			addBase(fmt.Sprintf("gen:%d:%d:type-error:%d", c.Env.Seed, b, tries), "type-error", esrc)
+			// and condensed onto one line, where all its diagnostics share a line
+			if dt, le, err := c19Tokenize(esrc); err == nil && le == 0 && len(dt) >= 5 {
+				dense := c19Dense(esrc, dt)
+				if nt, le2, err2 := c19Tokenize(dense); err2 == nil && le2 == 0 && len(nt) == len(dt) {
+					bases = append(bases, c19Base{id: fmt.Sprintf("gen:%d:%d:type-error-dense:%d", c.Env.Seed, b, tries), class: "type-error-dense", src: dense, toks: nt, orig: esrc})
+				}
+			}
+			undo2()
 			undo()
 		}
 		// parse-error twins: delete / duplicate / swap tokens of the accepted text
